@@ -45,5 +45,5 @@ with open(V + '/seeded/README.md', 'w') as f:
     for r in rows:
         f.write("| %s | %s | %s | %s | %s |\n" % r)
     n = len([r for r in rows if not r[2].startswith('NOT')])
-    f.write("\n%d of %d seeded changes are caught. The ones that are not need three goroutines interleaving inside one operation (outside every claim, DESIGN.md section 5) or break a property that is declared not applicable (C19).\n" % (n, len(rows)))
+    f.write("\n%d of %d seeded changes are caught (round 1: m1, m2; round 2: m3-m5, written after the first round's checks existed and told to avoid its functions). The ones that are not break a property that is declared not applicable (C19).\n" % (n, len(rows)))
 print(len(rows), 'seeds')
